@@ -604,10 +604,12 @@ const MALFORMED_ARGS: &[&str] = &[
     "\"a\", callback = f, callback = g", "\"a\", priority = 1, priority = 2", "\"a\", f, g", "\"a\", priority = x", "\"a\", priority", "\"a\", ignore(caseless)",
     "\"a\", ignore()", "\"a\", ignore(case, case)", "\"a\", allow_greedy = maybe", "\"a\", allow_greedy = true, allow_greedy = false", "\"a\", callback", "\"a\", unknown = 3",
     "", "1", "\"a\" \"b\"", "\"a\",, f", "b'a'", "\"a\", |x y| 1", "\"a\", |lex|", "\"a\", ignore(ascii_case)", "\"a\", callback = |a, b| 1", "'a'", "\"a\", priority = -1",
+    "\"a\", =", "\"a\", #", "\"a\", ?", "\"a\", ;", "\"a\", ::", "\"a\", ->", "\"a\", =>", "\"a\", @", "\"a\", ~", "\"a\", 'a", "\"a\",, f, priority = 2", "\"a\", priority = 2,, f", "\"a\", $",
     "\"a\", priority = 1.5", "\"a\", (f)", "\"a\", callback = f callback = g", "\"a\", ignore(case) priority = 3", "\"a\", f, callback = g", "\"a\", callback = f, priority = 2, callback = g",
 ];
 
 const MALFORMED_ITEMS: &[&str] = &[
+    "skip(\"a\",, foo)", "error(E,, foo)", "skip(\"a\", =)", "error(E, #)", "skip(\"a\", ?)", "error(E, ->)", "skip(\"a\", callback = ,, f)",
     "extras = HashMap<String, u32>", "error = Result<u8, u8>", "extras = ", "error = ", "extras = 1 + 2", "error = 1 + 2", "crate = \"x\"", "crate = a::<b, c>", "crate = ",
     "écart = 1", "тип", "日本語(x)", "é", "ünicode = \"a\"", "skip(\"a\", прио = 1)", "error(E, обратный = f)", "subpattern ß = \"a\"", "type Ж = u8",
     "error = E, error = F", "error(E, callback = f, callback = g)", "error(E, f, g)", "error(E, callback)", "error()", "error", "extras = X, extras = Y", "utf8 = false, utf8 = true",
@@ -835,6 +837,16 @@ pub enum X10 {
     Word(usize),
     #[token("!")]
     Bang,
+}
+"#,
+    // a user extension trait on Lexer whose method shares its name with one of logos' internal LexerInternal methods
+    r#"pub trait LexerExt11 { fn offset(&self) -> usize; }
+impl<'s, T: Logos<'s>> LexerExt11 for Lexer<'s, T> { fn offset(&self) -> usize { self.span().start } }
+#[derive(Logos)]
+#[logos(skip " ")]
+pub enum X11 {
+    #[regex("[a-z]+")]
+    Word,
 }
 "#,
     // function pointer with elided (higher-ranked) lifetimes
@@ -1106,6 +1118,10 @@ pub fn fuzz_one(seed: u64, i: usize) -> (Vec<Value>, BTreeMap<String, usize>, Op
                 Outcome::Panicked(m) => violations.push(vj("derive-panicked", m)),
                 Outcome::Accepted if cat == "bad-variant-shape" => violations.push(vj("must-reject-accepted", "named / empty / multi-field variant accepted")),
                 Outcome::Accepted if cat == "malformed-must-reject" => violations.push(vj("must-reject-accepted", "malformed #[logos(...)] item accepted: part of what was written is silently dropped or read as another item")),
+                // a malformed argument list that is accepted has been read as something (an undefined callback path, say):
+                // whatever that is, the output has to be Rust that rustc can report on - otherwise the user only sees
+                // "proc-macro derive produced unparsable tokens" and loses the whole impl
+                Outcome::Accepted if (cat == "malformed" || cat == "malformed-must-reject") && syn::parse_file(&a.output).is_err() => violations.push(vj("accepted-malformed-output-unparsable", &format!("a malformed attribute was accepted without any diagnostic and the derive output is not parsable Rust: {}", a.output.chars().take(300).collect::<String>()))),
                 // recorded diagnostics must reach the user: rustc only reports "unparsable tokens" otherwise
                 Outcome::Rejected(_) if syn::parse_file(&a.output).is_err() => violations.push(vj("diagnostics-in-unparsable-output", &format!("the derive recorded compile_error diagnostics but its output is not parsable Rust: {}", a.output.chars().take(300).collect::<String>()))),
                 Outcome::Rejected(_) => bump("rejected", &mut stats),
